@@ -464,10 +464,19 @@ func run(e *core.Env) {
 		sport, dport := uint16(1024+tp.Intn(60000)), uint16(1+tp.Intn(3000))
 		payload := []byte(fmt.Sprintf("OUT%05d:%x", seq, tp.Bytes(4)))
 		pkt := packet(src, dst, proto, sport, dport, payload)
+		// What the local interface hands over is not always an IPv6 packet: an IPv4 packet, or
+		// one with any other version number, has no IPv6 source and destination at all, whatever
+		// its bytes 8..39 look like (here: exactly like an admissible packet).
+		notV6 := false
+		if tp.Chance(1, 10) {
+			pkt[0] = byte([]int{4, 0, 5, 7, 15}[tp.Intn(5)])<<4 | pkt[0]&0x0f
+			notV6 = true
+			e.Probe("local_packet_that_is_not_ipv6")
+		}
 		buf := o.Inst.Builder.GetPooledSlice(len(pkt))
 		copy(buf, pkt)
 		before := len(ms.Net.Crossings)
-		if oi != 0 && dst == R.IP && src == o.IP {
+		if !notV6 && oi != 0 && dst == R.IP && src == o.IP {
 			// traffic from another node's local interface towards R is inbound traffic for R
 			lp, rp := dport, sport
 			if proto == 58 {
@@ -496,6 +505,14 @@ func run(e *core.Env) {
 			for _, g := range frames {
 				g.ReturnToPool()
 			}
+		}
+		if notV6 {
+			if left {
+				e.Fail("local-packet-entered-mesh/not-an-ipv6-packet", "%s sent a frame towards %s for a local packet with IP version %d", names[o.IP], dst, pkt[0]>>4)
+			}
+			e.Ev("out-not-v6", uint64(oi), b2u(left))
+			e.Probe("outbound_not_sent")
+			return
 		}
 		if oi == 0 {
 			lp, rp := sport, dport
